@@ -58,6 +58,11 @@ def check_case(case):
                 for b in nodes[a].neighbors:
                     if b in nodes and a not in nodes[b].neighbors:
                         P.append(("hypergraph:asymmetric", "%s lists %s as neighbour but not conversely" % (a, b)))
+            # the graph's own edge set: one hyper-edge per constraint (also for constraints with identical scopes)
+            glk = sorted((getattr(l, "name", None), tuple(sorted(l.nodes))) for l in g.links)
+            gwant = sorted((c["name"], tuple(sorted(set(c["scope"])))) for c in case["constraints"])
+            if glk != gwant:
+                P.append(("hypergraph:graph-links", "graph.links %r, expected one per constraint %r" % (glk[:8], gwant[:8])))
     except Exception as e:
         P.append(("hypergraph:exception:%s" % type(e).__name__, "constraints_hypergraph.build_computation_graph raised %s: %s" % (type(e).__name__, e)))
 
@@ -89,6 +94,10 @@ def check_case(case):
                     P.append(("factorgraph:variable-links", "variable %s links %r, expected %r" % (n, lk, [(c, n) for c in cons_of[n]])))
                 if sorted(v.constraints_names) != cons_of[n]:
                     P.append(("factorgraph:constraints-names", "variable %s constraints_names %r" % (n, v.constraints_names)))
+            flk = sorted((l.factor_node, l.variable_node) for l in g.links)
+            fwant = sorted((c["name"], n) for c in case["constraints"] for n in set(c["scope"]))
+            if flk != fwant:
+                P.append(("factorgraph:graph-links", "graph.links %r, expected one per (factor, variable) pair %r" % (flk[:8], fwant[:8])))
             # bipartite: no link between two nodes of the same kind
             for n in g.nodes:
                 for m in n.neighbors:
